@@ -42,9 +42,9 @@ CLAIMED = {
     "C12": {
         "category": "proof",
         "design_ref": "DESIGN.md section 6, C12",
-        "technique": "Kani full-domain harnesses over symbolic r_type: u32 x value: u64 on x86_64::relocation_from_raw / aarch64::relocation_type_from_raw -> RelocationKindInfo::write_to_buffer, against accept sets transcribed from GNU ld, lld and aaelf64; plus contracts of AllowedRange::{from_bit_size,from_byte_size,contains}",
-        "text": "For every relocation type number and every 64-bit value CBMC proves on the real tables and the real write_to_buffer: a value both GNU ld and lld accept is accepted, a value both reject is rejected, the field width is the psABI's, an accepted value reads back from the written bytes as itself (never silently truncated), and an error leaves the buffer untouched; for AArch64 additionally that the written instruction field is X[hi:lo] of the psABI row. The tables are const match expressions without loops, so the whole domain is covered symbolically.",
-        "note": "Trusted: the hand transcription of bfd's howto table, lld's relocate() checks and aaelf64 5.7 (rows whose check could not be transcribed confidently are marked Unknown and get only oracle-free obligations); format/backtrace stubs on the error path. Not covered: the computation of the value handed to write_to_buffer (apply_relocation), RISC-V and LoongArch tables, ULEB128 pairs.",
+        "technique": "Kani full-domain harnesses over symbolic r_type: u32 x value: u64 on x86_64::relocation_from_raw / aarch64::relocation_type_from_raw (and riscv64::relocation_type_from_raw for the lui/auipc class) -> RelocationKindInfo::write_to_buffer, against accept sets transcribed from GNU ld, lld, aaelf64 and the RISC-V ISA; plus contracts of AllowedRange::{from_bit_size,from_byte_size,contains}",
+        "text": "For every relocation type number and every 64-bit value CBMC proves on the real tables and the real write_to_buffer: a value both GNU ld and lld accept is accepted, a value both reject is rejected, the field width is the psABI's, an accepted value reads back from the written bytes as itself (never silently truncated), and an error leaves the buffer untouched; for AArch64 additionally that the written instruction field is X[hi:lo] of the psABI row; for the eight RISC-V relocation types of the lui/auipc class that a value is accepted exactly when a sign-extending U-type result plus a signed 12-bit immediate can produce it on RV64. The tables are const match expressions without loops, so the whole domain is covered symbolically.",
+        "note": "Trusted: the hand transcription of bfd's howto table, lld's relocate() checks and aaelf64 5.7 (rows whose check could not be transcribed confidently are marked Unknown and get only oracle-free obligations); format/backtrace stubs on the error path. Not covered: the computation of the value handed to write_to_buffer (apply_relocation), the remaining RISC-V rows and the LoongArch table, ULEB128 pairs.",
     },
     "C14": {
         "category": "proof",
